@@ -7,8 +7,9 @@ import shutil
 
 from .. import build, tlc, judge
 
-ATTRS = ["a", "b", "c", "e", "pa", "pb", "pc", "pe"]
-TARGET = {"a": "a", "b": "tb", "c": "pre_c", "e": "pp_e", "pa": "pa", "pb": "ptb", "pc": "pre_pc", "pe": "pp_pe"}
+ATTRS = ["a", "b", "c", "e", "pa", "pb", "pc", "pe", "da", "dpa"]
+TARGET = {"a": "a", "b": "tb", "c": "pre_c", "e": "pp_e", "pa": "pa", "pb": "ptb", "pc": "pre_pc", "pe": "pp_pe",
+          "da": "xa", "dpa": "xpa"}
 TARGETS = sorted(set(TARGET.values()))
 ABSENT = 1000
 BAD = 99
@@ -20,6 +21,9 @@ class World(object):
         from . import defer_classes as dc
         self.ps = [None, dc.P(), dc.P()]
         self.d = dc.D(par=self.ps[1])
+        from traits.api import DelegatesTo, PrototypedFrom
+        self.d.add_trait("da", DelegatesTo("par", "xa"))           # deferred traits given to the object at run time
+        self.d.add_trait("dpa", PrototypedFrom("par", "xpa"))
         self.d2 = dc.D2(par=self.d)
         self.logs = {x: [] for x in ATTRS}
         for x in ATTRS:
@@ -122,7 +126,7 @@ def run(rep, tier, seed):
         rep.case(n)
 
         def sig_of(rec, cl):
-            kind = "delegate" if rec["x"] in ("a", "b", "c", "e") else "prototype"
+            kind = "delegate" if rec["x"] in ("a", "b", "c", "e", "da") else "prototype"
             return "C11:judge:%s:%s:%s:%s" % (rec["op"], kind, rec["x"], "+".join(cl))
         judge.judge(rep, "Trace_Deferred", "Trace_Deferred", "Trace_Deferred.cfg", trace, n, sig_of=sig_of)
         rep.rule = ("TLC: DeferredMC histories (set via the deferring object, set on either candidate delegate, swap the "
